@@ -32,9 +32,17 @@ func (scd DLSetupContextDecorator) AnteHandle(ctx sdk.Context, tx sdk.Tx, simula
 		return scd.cd.AnteHandle(ctx, tx, simulate, next)
 	}
 
-	_, ok := tx.(sdkauthante.GasTx)
+	gasTx, ok := tx.(sdkauthante.GasTx)
 	if !ok {
 		return ctx, errorsmod.Wrapf(sdkerrors.ErrInvalidType, "invalid transaction type %T, expected GasTx", tx)
+	}
+
+	// Same bound as the Cosmos-lane setup decorator: a transaction can never fit into a block when its gas limit
+	// exceeds the block max gas, and the EVM would otherwise execute it up to that (arbitrarily large) gas limit.
+	if cp := ctx.ConsensusParams(); cp.Block != nil {
+		if cp.Block.MaxGas > 0 && gasTx.GetGas() > uint64(cp.Block.MaxGas) {
+			return ctx, errorsmod.Wrapf(sdkerrors.ErrInvalidGasLimit, "tx gas limit %d exceeds block max gas %d", gasTx.GetGas(), cp.Block.MaxGas)
+		}
 	}
 
 	// We need to set up an empty gas config so that the gas is consistent with Ethereum.
